@@ -327,6 +327,14 @@ func classifyMapRange(pkg *packages.Package, fd *ast.FuncDecl, rs *ast.RangeStmt
 
 // c20Globals: census of package-level variables written outside init.
 func c20Globals(r *Run) {
+	globalsCensus(r, []string{"lexer", "parser", "token", "node", "data", "runtime", "std/php", "std/php/core"},
+		"package-level variable %s (%s) is written outside init by %s: state that outlives a VM unless it is reset, write-once, or keyed by VM")
+}
+
+// globalsCensus reports, as one obligation each, the package-level variables of the scoped packages
+// that some function other than init writes (assignment, ++, delete/clear, mutating method of a
+// sync/atomic/bytes value rooted at the variable).
+func globalsCensus(r *Run, scopes []string, format string, discharge ...func(pkg *packages.Package, v *types.Var) (bool, string)) {
 	type gw struct {
 		obj   *types.Var
 		sites []string
@@ -336,7 +344,7 @@ func c20Globals(r *Run) {
 	for _, pkg := range r.Roots {
 		rel := strings.TrimPrefix(strings.TrimPrefix(pkg.PkgPath, modPath), "/")
 		inScope := false
-		for _, sc := range []string{"lexer", "parser", "token", "node", "data", "runtime", "std/php", "std/php/core"} {
+		for _, sc := range scopes {
 			if rel == sc {
 				inScope = true
 			}
@@ -434,7 +442,18 @@ func c20Globals(r *Run) {
 			if len(fns) > 4 {
 				fns = append(fns[:4], "…")
 			}
-			r.bad(key, g.pos, fmt.Sprintf("package-level variable %s (%s) is written outside init by %s: state that outlives a VM unless it is reset, write-once, or keyed by VM", v.Name(), types.TypeString(v.Type(), types.RelativeTo(pkg.Types)), strings.Join(fns, ", ")))
+			done := false
+			for _, d := range discharge {
+				if ok, why := d(pkg, v); ok {
+					r.ok(key, g.pos, why)
+					done = true
+					break
+				}
+			}
+			if done {
+				continue
+			}
+			r.bad(key, g.pos, fmt.Sprintf(format, v.Name(), types.TypeString(v.Type(), types.RelativeTo(pkg.Types)), strings.Join(fns, ", ")))
 		}
 	}
 }
